@@ -64,6 +64,12 @@ pub struct ExecStats {
     pub refused_after_error: u64,
     pub steps_skipped: u64,
     pub deep_checks: u64,
+    pub syncs_decoded: u64,
+    pub pages_protected: u64,
+    pub secondary_selected_at_sync: u64,
+    pub decoder_max_depth: u32,
+    pub multimap_subtrees_seen: u64,
+    pub ownership_audits: u64,
 }
 
 pub struct HeldIter {
@@ -126,6 +132,7 @@ pub struct Exec {
     /// faults to arm right after the database has been created (C08); Some(vec![]) only counts calls
     pub fault_plan: Option<Vec<crate::disk::Fault>>,
     pub calls_counted: u64,
+    pub hook: Option<Arc<std::sync::Mutex<crate::deep::HookShared>>>,
 }
 
 pub fn is_io_error_str(s: &str) -> bool {
@@ -135,6 +142,14 @@ pub fn is_io_error_str(s: &str) -> bool {
 impl Exec {
     pub fn new(cfg: Cfg, mode: Mode) -> Self {
         let cache = cfg.cache;
+        let mut e = Self::new_inner(cfg, mode, cache);
+        if e.cfg.deep_oracles {
+            e.hook = Some(Arc::new(std::sync::Mutex::new(crate::deep::HookShared::default())));
+        }
+        e
+    }
+
+    fn new_inner(cfg: Cfg, mode: Mode, cache: u64) -> Self {
         Exec {
             cfg,
             mode,
@@ -162,6 +177,7 @@ impl Exec {
             known: vec![],
             fault_plan: None,
             calls_counted: 0,
+            hook: None,
         }
     }
 
@@ -207,15 +223,26 @@ impl Exec {
         self.abort_baseline = None;
         self.disk.marker(Marker::OpenBegin);
         self.stats.api_calls += 1;
+        if let Some(h) = self.hook.clone() {
+            // creation of a brand-new file is outside the properties' quantifier
+            h.lock().unwrap().active = !created;
+            self.push_hook_state();
+            self.disk.set_sync_hook(Some(crate::deep::make_hook(h)));
+        }
         let r = self.builder(cache).create_with_backend(self.disk.clone());
-        match r {
+        let r = match r {
             Ok(db) => {
                 self.disk.marker(Marker::OpenEnd);
                 self.db = Some(db);
                 Ok(())
             }
             Err(e) => Err(e),
+        };
+        if let Some(h) = self.hook.clone() {
+            h.lock().unwrap().active = true;
         }
+        self.collect_hook();
+        r
     }
 
     /// Fold the finished disk's log and stats into the run (end of one process lifetime).
@@ -249,6 +276,15 @@ impl Exec {
         if !dead && close_count != 1 {
             self.viol("C20", "close-count", format!("close() called {close_count} times for one backend"));
         }
+        self.collect_hook();
+        if let Some(h) = self.hook.clone() {
+            let mut sh = h.lock().unwrap();
+            self.stats.syncs_decoded += std::mem::take(&mut sh.syncs_checked);
+            self.stats.pages_protected += std::mem::take(&mut sh.protected_pages);
+            self.stats.secondary_selected_at_sync += std::mem::take(&mut sh.secondary_selected);
+            self.stats.decoder_max_depth = self.stats.decoder_max_depth.max(sh.max_depth);
+            self.stats.multimap_subtrees_seen += std::mem::take(&mut sh.subtrees);
+        }
         if self.keep_lifetimes {
             self.lifetimes.push(Lifetime {
                 base: std::mem::take(&mut self.cur_life_base),
@@ -256,6 +292,45 @@ impl Exec {
                 allowed_at_start: self.cur_life_allowed.clone(),
                 created: self.cur_life_created,
             });
+        }
+    }
+
+    /// publish the admissible versions (and their expected decoded form) to the sync hook
+    pub fn push_hook_state(&mut self) {
+        let Some(h) = self.hook.clone() else { return };
+        let mut sh = h.lock().unwrap();
+        sh.allowed = self.allowed.clone();
+        let allowed = self.allowed.clone();
+        sh.expected.retain(|v, _| allowed.contains(v));
+        for v in allowed {
+            if !sh.expected.contains_key(&v) {
+                let st = &self.versions[v];
+                sh.expected.insert(v, (Arc::new(crate::deep::expected_dump(st)), st.psp.keys().copied().collect()));
+            }
+        }
+    }
+
+    /// move what the sync hook and the disk monitors found into the run's violations
+    pub fn collect_hook(&mut self) {
+        if let Some(h) = self.hook.clone() {
+            let v: Vec<(String, String, String)> = std::mem::take(&mut h.lock().unwrap().viols);
+            if self.mode == Mode::Strict {
+                for (p, t, d) in v {
+                    self.viol(&p, &t, d);
+                }
+            }
+        }
+        let (contract, monitor) = {
+            let mut s = self.disk.st();
+            (std::mem::take(&mut s.contract), std::mem::take(&mut s.monitor))
+        };
+        for c in contract {
+            self.viol("C20", "contract", c);
+        }
+        if self.mode == Mode::Strict {
+            for m in monitor {
+                self.viol("C06", "write-monitor", m);
+            }
         }
     }
 
@@ -352,6 +427,7 @@ impl Exec {
                 self.cur = self.versions.len() - 1;
                 self.allowed.insert(self.cur);
                 self.disk.marker(Marker::Resynced { landed: v as u32, new: self.cur as u32 });
+                self.push_hook_state();
                 true
             }
             None => {
@@ -919,6 +995,31 @@ impl Exec {
     }
 
     pub fn step(&mut self, step: &Step) {
+        self.step_inner(step);
+        self.push_hook_state();
+        self.collect_hook();
+        if matches!(step, Step::Txn(_) | Step::Reopen { .. } | Step::Crash { .. } | Step::Compact | Step::CheckIntegrity | Step::DropDbDuringTxn { .. } | Step::SpDropEphemeral { .. }) {
+            self.ownership();
+        }
+    }
+
+    /// C06: exact page ownership at a transaction boundary
+    pub fn ownership(&mut self) {
+        if !self.cfg.deep_oracles || self.mode != Mode::Strict || !self.viols.is_empty() {
+            return;
+        }
+        let Some(db) = self.db.as_ref() else { return };
+        let o = crate::deep::ownership_audit(db);
+        if o.skipped {
+            return;
+        }
+        self.stats.ownership_audits += 1;
+        for (tag, d) in o.problems {
+            self.viol("C06", &tag, d);
+        }
+    }
+
+    fn step_inner(&mut self, step: &Step) {
         match step {
             Step::Txn(t) => self.run_txn(t, false),
             Step::DropDbDuringTxn { txn } => self.run_txn(txn, true),
